@@ -300,7 +300,7 @@ pub fn run(a: &Args) {
 	let _ = world.mine_n(Some(1), 6);
 	let _ = world.mine_n(None, 3);
 	let mut cx = Ctx { w: &mut world, rep: &mut rep };
-	let rounds = if a.thorough() { 6 } else { 1 };
+	let rounds = a.get_u64("rounds", if a.thorough() { 6 } else { 3 });
 	let steps = [At::Receive, At::Finalize, At::PayInvoice, At::FinalizeInvoice];
 	let mut idx = 0usize;
 	for _ in 0..rounds {
